@@ -214,10 +214,17 @@ func TestVerifC18Meta(t *testing.T) {
 			// outgoing context: every (name, value) pair in order
 			ctx := AppendToOutgoingContext(context.Background(), c.proto())
 			out, _ := metadata.FromOutgoingContext(ctx)
+			// outgoing metadata carries -bin values as raw bytes (grpc-go base64-encodes them
+			// on the wire), so that they end up encoded exactly once
 			wantOut := map[string][]string{}
 			for _, h := range c.Headers {
 				for _, v := range h.Value {
 					k := strings.ToLower(h.Name)
+					if strings.HasSuffix(k, "-bin") {
+						if raw, err := base64.RawStdEncoding.DecodeString(strings.TrimRight(v, "=")); err == nil {
+							v = string(raw)
+						}
+					}
 					wantOut[k] = append(wantOut[k], v)
 				}
 			}
